@@ -401,9 +401,11 @@ def make_pmappings(
         pmappings,
         cur_keep_rates,
     ) in parallel(
+        # Collected in job order (not completion order): the order in which pmapping
+        # groups are appended decides which of several equally good mappings is kept,
+        # so it must not depend on scheduling.
         calls,
         pbar=f"Generating pmappings" if print_progress or one_pbar_only else None,
-        return_as="generator_unordered",
     ):
         pmapping_groups[einsum_name].extend(new_pmapping_groups)
         pmapping_objects.setdefault(einsum_name, {}).update(pmappings)
